@@ -98,6 +98,9 @@ type In struct {
 	EarlierAmt []Ans `json:"earlier_amt,omitempty"`
 	// text of the error a failing settlement submission returns (store_ok = false)
 	StoreErr string `json:"store_err,omitempty"`
+	// the earlier attempts carried this other bid (an honest one whose digest and signature the
+	// measured bid re-uses) instead of the measured bid itself
+	EarlierBid *JBid `json:"earlier_bid,omitempty"`
 }
 type Effect struct {
 	T        string `json:"t"` // sign | store | write
@@ -301,6 +304,7 @@ func run(in In) (obs Obs) {
 	pc := preconfirmation.New(nil, nil, sgn, us, svc, da, vh.Quiet())
 	handler := pc.Streams()[0].Handler
 
+	useEarlierBid := false
 	attempt := func() {
 		root, cancelRoot := context.WithCancel(context.Background())
 		defer cancelRoot()
@@ -315,7 +319,11 @@ func run(in In) (obs Obs) {
 					resC <- errors.New("panic")
 				}
 			}()
-			resC <- handler(ctx, p2p.Peer{EthAddress: common.HexToAddress("0xb1dde7"), Type: p2p.PeerType(in.Role)}, &scriptStream{in, logE})
+			sin := in
+			if useEarlierBid && in.EarlierBid != nil {
+				sin.Bid = in.EarlierBid
+			}
+			resC <- handler(ctx, p2p.Peer{EthAddress: common.HexToAddress("0xb1dde7"), Type: p2p.PeerType(in.Role)}, &scriptStream{sin, logE})
 		}()
 		var res error
 		done := false
@@ -357,6 +365,9 @@ func run(in In) (obs Obs) {
 				case b := <-rs.bids:
 					handed = true
 					want := fromJ(in.Bid)
+					if useEarlierBid && in.EarlierBid != nil {
+						want = fromJ(in.EarlierBid) // the bid this attempt carries
+					}
 					if strings.Join(b.TxHashes, ",") != want.TxHash || b.BidAmount != want.BidAmount || b.BlockNumber != want.BlockNumber ||
 						string(b.BidDigest) != string(want.Digest) || b.DecayStartTimestamp != want.DecayStartTimestamp || b.DecayEndTimestamp != want.DecayEndTimestamp {
 						obs.EngineFieldsOK = false
@@ -457,7 +468,9 @@ func run(in In) (obs Obs) {
 			curAmt = in.EarlierAmt[i]
 		}
 		mu.Unlock()
+		useEarlierBid = true
 		attempt()
+		useEarlierBid = false
 		mu.Lock()
 		obs.EarlierResults = append(obs.EarlierResults, obs.Result)
 		obs.Effects = []Effect{}
@@ -893,6 +906,28 @@ func main() {
 	H := Event{T: "handoff"}
 	D := func(mine bool, st int) Event { return Event{T: "decision", Mine: mine, Status: st} }
 	accept := []Event{H, D(true, 1)}
+	// an honest bid is handled first; then a bid with other contents that re-uses the honest
+	// bid's digest and signature arrives at the same long-lived components
+	for i := 0; i < vh.Count(8, 100); i++ {
+		b := mkBid("valid")
+		f := proto.Clone(b).(*preconfpb.Bid)
+		switch i % 4 {
+		case 0:
+			f.BlockNumber++
+		case 1:
+			f.TxHash = goodHash()
+		case 2:
+			f.BidAmount = f.BidAmount + "0"
+			if len(f.BidAmount) > 19 {
+				f.BidAmount = "7"
+			}
+		case 3:
+			f.DecayStartTimestamp, f.DecayEndTimestamp = f.DecayEndTimestamp, f.DecayStartTimestamp+1
+		}
+		in := In{Tag: "forged-after-honest", Role: 2, ReadOK: true, Bid: toJ(f), MinAns: yes[0], AmtAns: yes[1], Schedule: accept,
+			SignOK: true, StoreOK: true, WriteOK: true, Selector: sel, Prims: []Prim{prim(b.Digest, b.Signature)}, Earlier: []bool{true}, EarlierBid: toJ(b)}
+		out.Emit(in, run(in))
+	}
 	if prop == "C07" {
 		for i := 0; i < vh.Count(150, 3000); i++ {
 			emit("accept", 2, true, mkBid("valid"), "yes", accept, true, true, true)
